@@ -2,7 +2,7 @@
 """Apply a seeded change to /repo, run every check (quick tier, no evidence
 written), report which checks fire, and undo the change again.
 
-usage: run_seeded.py seeded/<id> [property ...]
+usage: run_seeded.py seeded/<id> | path/to/patch.diff  [property ...]
 """
 import json
 import os
@@ -16,7 +16,10 @@ REPO = "/repo"
 def main():
     d = sys.argv[1]
     props = sys.argv[2:]
-    patch = os.path.join(HERE, d, "patch.diff") if not os.path.isabs(d) else os.path.join(d, "patch.diff")
+    if d.endswith(".diff"):
+        patch = d if os.path.isabs(d) else os.path.join(HERE, d)     # a bare patch file (benign refactorings)
+    else:
+        patch = os.path.join(HERE, d, "patch.diff") if not os.path.isabs(d) else os.path.join(d, "patch.diff")
     m = json.load(open(os.path.join(HERE, "MANIFEST.json")))
     if not props:
         props = [c["property_id"] for c in m["checks"]]
